@@ -181,8 +181,14 @@ def run(ctx, prop, focus, n_hist, n_stall, stall_programs=1, n_istall=0):
     #    that phase 1 actually saw being executed - no function name of the pool module is assumed
     learned = sorted(inj.seen)
     if learned:
-        pts = [{"qualname": q, "line": l, "role": r, "k": k} for (q, l, r) in learned if r != "main" or True
-               for k in (1, 2, 3)]
+        import jsonrpclib.threadpool as tpm
+        roles_by_fn = {}
+        for (q, l, r) in learned:
+            roles_by_fn.setdefault(q, set()).add(r)
+        # functions and roles are learned; their statement lines are enumerated statically, so that every shard
+        # partitions the same list
+        pts = [{"qualname": q, "line": l, "role": r, "k": k} for (q, l) in sorted(set(inject.statement_lines(tpm)))
+               if q in roles_by_fn for r in sorted(roles_by_fn[q]) for k in (1, 2, 3)]
         ctx.counters["stall-points-enumerated"] = len(pts)
     mine = [pt for i, pt in enumerate(pts) if ctx.mine(i)]
     rng.shuffle(mine)
